@@ -8,7 +8,7 @@ import json
 from xml.etree import ElementTree
 
 from sim import canon
-from sim.simio import make_stream, SimPeer, Plan
+from sim.simio import make_stream, SimPeer, Plan, decode_declared, declared_encoding
 
 CONVERTERS = ('default', 'badgerfish', 'jsonml', 'unordered', 'parker', 'abdera', 'columnar', 'gdata')
 
@@ -70,11 +70,11 @@ def make_source(env, data, src):
     if ch == 'bytes':
         return data, None
     if ch == 'text':
-        return data.decode('utf-8'), None
+        return decode_declared(data), None
     if ch == 'bytesio':
         return io.BytesIO(data), None
     if ch == 'stringio':
-        return io.StringIO(data.decode('utf-8')), None
+        return io.StringIO(decode_declared(data)), None
     if ch in STREAM_CHANNELS:
         kind = {'textio': 'text'}.get(ch, ch)
         st = make_stream(kind, data, plan=plan, seekable=src.get('seekable', True),
@@ -82,7 +82,7 @@ def make_source(env, data, src):
         env.streams.append(st)
         return st, st.core
     if ch in ('openfile', 'openfile_text'):
-        fp = open(env.path_for(data), 'rb') if ch == 'openfile' else open(env.path_for(data), 'r', encoding='utf-8')
+        fp = open(env.path_for(data), 'rb') if ch == 'openfile' else open(env.path_for(data), 'r', encoding=declared_encoding(data))
         env.streams.append(fp)
         return fp, None
     if ch == 'path':
